@@ -588,7 +588,8 @@ class RLambda:
         self.interp, self.node, self.env, self.fi = interp, node, env, fi
 
     def __call__(self, *a, **k):
-        env = dict(self.env)
+        # a function created by a module-level statement has no closure: its free names are globals, read when it is called
+        env = {} if isinstance(self.env, _ModEnv) else dict(self.env)
         it = self.interp
         it.bind(self.node.args, list(a), dict(k), env, self.fi, getattr(self.node, "name", "<lambda>"))
         if isinstance(self.node, ast.Lambda):
@@ -632,6 +633,75 @@ def _isinstance(v, t):
     if isinstance(t, type) and t in _NATIVE_TYPES:
         return isinstance(v, t)
     raise _Unrec("isinstance(_, %r)" % (t,))
+
+
+_SCOPES = (ast.FunctionDef, ast.AsyncFunctionDef, ast.ClassDef, ast.Lambda, ast.ListComp, ast.SetComp, ast.DictComp, ast.GeneratorExp)
+
+
+def _walk_scope(node):
+    """the nodes of a module-level statement that belong to the module's own scope"""
+    todo = [node]
+    while todo:
+        n = todo.pop()
+        yield n
+        todo.extend(c for c in ast.iter_child_nodes(n) if not isinstance(c, _SCOPES))
+
+
+def _module_index(mod):
+    """name -> indices of the module-level statements that (may) bind it by assignment (plain, tuple, augmented, annotated, loop
+    target, with-target, del; at top level or under a module-level if / for / while / try / with), and the names some function
+    of the module rebinds through `global`.  Computed once per parsed module."""
+    idx = getattr(mod, "_c16_module_index", None)
+    if idx is None:
+        binders, rebound = {}, set()
+        for i, st in enumerate(mod.tree.body):
+            if isinstance(st, _SCOPES):
+                continue
+            for n in _walk_scope(st):
+                if isinstance(n, ast.Name) and isinstance(n.ctx, (ast.Store, ast.Del)):
+                    b = binders.setdefault(n.id, [])
+                    if not b or b[-1] != i:
+                        b.append(i)
+        for n in ast.walk(mod.tree):
+            if isinstance(n, ast.Global):
+                rebound.update(n.names)
+        idx = mod._c16_module_index = (binders, rebound)
+    return idx
+
+
+def _module_binders(mod, name):
+    return _module_index(mod)[0].get(name, [])
+
+
+class _ModEnv(dict):
+    """environment of a module-level statement: a name that is not bound by the statement itself is the module-level value as
+    of that statement (the bindings made by the statements before it)"""
+
+    def __init__(self, interp, mod, upto, fi):
+        dict.__init__(self)
+        self.interp, self.mod, self.upto, self.fi = interp, mod, upto, fi
+
+    def _earlier(self, name):
+        return any(i < self.upto for i in _module_binders(self.mod, name))
+
+    def __contains__(self, name):
+        return dict.__contains__(self, name) or self._earlier(name)
+
+    def __getitem__(self, name):
+        if dict.__contains__(self, name):
+            return dict.__getitem__(self, name)
+        if self._earlier(name):
+            return self.interp.module_value(self.mod, name, self.upto, self.fi)
+        raise KeyError(name)
+
+
+def _copy_env(env):
+    if isinstance(env, _ModEnv):
+        e = _ModEnv(env.interp, env.mod, env.upto, env.fi)
+        for k in dict.keys(env):
+            dict.__setitem__(e, k, dict.__getitem__(env, k))
+        return e
+    return dict(env)
 
 
 class Interp:
@@ -744,6 +814,36 @@ class Interp:
             self.depth -= 1
 
     # -- names ----------------------------------------------------------
+    def module_value(self, mod, name, upto, fi):
+        """the value a module-level name has after the first `upto` statements of its module ran (for a function called after
+        import: all of them): the statements that bind it are evaluated in source order, whole (a module-level `if` that picks
+        one of two tables is decided by its test), every other module-level name they read being its value as of that statement"""
+        binders, rebound = _module_index(mod)
+        if name in rebound:
+            raise _Unrec("module-level name %s is rebound by a function (global)" % name)
+        self.depth += 1
+        try:
+            if self.depth > 14:
+                raise _Unrec("constant depth")
+            env = _ModEnv(self, mod, 0, fi)
+            for i in binders.get(name, []):
+                if i >= upto:
+                    break
+                env.upto = i
+                try:
+                    self.stmt(mod.tree.body[i], env, fi)
+                except (_Return, _Break, _Continue):
+                    raise _Unrec("stray control flow at module level")
+                except _Raised as e:
+                    raise _Unrec("module-level code raises: %s" % e)
+                for k in [k for k in dict.keys(env) if k != name]:
+                    dict.__delitem__(env, k)
+            if not dict.__contains__(env, name):
+                raise _Unrec("module-level name %s is not bound on this path" % name)
+            return dict.__getitem__(env, name)
+        finally:
+            self.depth -= 1
+
     def lookup(self, name, env, fi):
         if name in env:
             return env[name]
@@ -758,14 +858,8 @@ class Interp:
             if full in self.repo.funcs:
                 return RFunc(self, self.repo.funcs[full])
             raise _Unrec("imported name %s (%s) is not modelled" % (name, tgt))
-        if name in mod.consts:
-            self.depth += 1
-            try:
-                if self.depth > 14:
-                    raise _Unrec("constant depth")
-                return self.ev(mod.consts[name], {}, fi)
-            finally:
-                self.depth -= 1
+        if _module_binders(mod, name):
+            return self.module_value(mod, name, len(mod.tree.body), fi)
         if name in self.builtins:
             return self.builtins[name]
         for sm in mod.star:
@@ -1007,11 +1101,11 @@ class Interp:
             return d
         if isinstance(e, (ast.ListComp, ast.GeneratorExp, ast.SetComp)):
             out = []
-            self.comp(e.generators, dict(env), fi, lambda en: self.ev(e.elt, en, fi), out)
+            self.comp(e.generators, _copy_env(env), fi, lambda en: self.ev(e.elt, en, fi), out)
             return set(out) if isinstance(e, ast.SetComp) else out
         if isinstance(e, ast.DictComp):
             out = []
-            self.comp(e.generators, dict(env), fi, lambda en: (self.ev(e.key, en, fi), self.ev(e.value, en, fi)), out)
+            self.comp(e.generators, _copy_env(env), fi, lambda en: (self.ev(e.key, en, fi), self.ev(e.value, en, fi)), out)
             return dict(out)
         if isinstance(e, ast.BinOp):
             import operator as op
